@@ -26,7 +26,8 @@ Fixpoint fs_get (fs : fsys) (p : zs) : option fentry :=
 
 (* ---------- native / core registrations (C15) ---------- *)
 (* n_loader_reqs: what the Go loader of a registered name requires while it runs (re-entrant loaders; none for most) *)
-Record natives := { n_registry : list zs; n_global : list zs; n_core : list zs; n_loader_reqs : list (zs * list zs) }.
+(* n_loader_throws: registered names whose Go loader panics with a JS value (tag 77) when it runs *)
+Record natives := { n_registry : list zs; n_global : list zs; n_core : list zs; n_loader_reqs : list (zs * list zs); n_loader_throws : list zs }.
 Inductive nkind := NRegistry | NGlobal | NCore.
 
 Fixpoint mem_zs (x : zs) (l : list zs) : bool := match l with [] => false | y :: r => zs_eqb x y || mem_zs x r end.
@@ -238,8 +239,12 @@ Definition load_native_run (st : rstate) (name : zs) : rstate * res :=
   | None =>
     let '(st1, r) := load_native st name in
     match r with
-    | ROk m => let '(st2, oof) := run_lazies st1 loader_file (assoc_reqs (n_loader_reqs nat_reg) (registered_name st1 m)) in
-               (st2, if oof then RFuel else ROk m)
+    | ROk m =>
+      (* the module is cached (under both spellings) before the loader runs and stays cached when the loader fails: loadNative has
+         no clean-up, a later require returns the same half-initialised module and does not run the loader again *)
+      if mem_zs (registered_name st1 m) (n_loader_throws nat_reg) then (st1, RThrown 77)
+      else let '(st2, oof) := run_lazies st1 loader_file (assoc_reqs (n_loader_reqs nat_reg) (registered_name st1 m)) in
+           (st2, if oof then RFuel else ROk m)
     | other => (st1, other)
     end
   end.
